@@ -176,6 +176,17 @@ func checkChain(c sim.ChainCase) error {
 	elements, steps, maxLeaves := 0, 0, uint64(0)
 	sawRevertReapply, sawMerge := false, false
 	reverted := false
+	// a wallet-style client that only ever calls UpdateElementProof, and a twin that applies the same updates later
+	fw := sim.NewFollowers(1 + len(c.Steps)%4)
+	follow := func(err error, b *ref.Built, what string) error {
+		if err == nil {
+			_, err = fw.Verify(b)
+		}
+		if err != nil {
+			return stats.Failf("C05/follower", "%s: %v", what, err)
+		}
+		return nil
+	}
 	hooks := sim.Hooks{
 		Genesis: func(ch *sim.Chain, au consensus.ApplyUpdate) error {
 			if err := ft.Apply(0, ch.Tip().Elements.NumLeaves, au); err != nil {
@@ -183,6 +194,9 @@ func checkChain(c sim.ChainCase) error {
 			}
 			n, err := verifyStore(ch.Tip(), ch.Store, ft.Tip().Build())
 			elements += n
+			if err == nil {
+				err = follow(fw.Apply(au, ch.Tip().Elements.NumLeaves, ch.Store), ft.Tip().Build(), "genesis")
+			}
 			return err
 		},
 		AfterApply: func(ch *sim.Chain, st *sim.Step, parent consensus.State, au consensus.ApplyUpdate) error {
@@ -199,6 +213,9 @@ func checkChain(c sim.ChainCase) error {
 			}
 			if err := treeNodes(au, oldB, newB); err != nil {
 				return stats.Failf("C05/tree-nodes", "height %d: %v", ch.Height(), err)
+			}
+			if err := follow(fw.Apply(au, ch.Tip().Elements.NumLeaves, ch.Store), newB, fmt.Sprintf("apply height %d", ch.Height())); err != nil {
+				return err
 			}
 			updated := len(au.SiacoinElementDiffs()) > 0
 			if o, nn := parent.Elements.NumLeaves, ch.Tip().Elements.NumLeaves; updated && (o^nn) > o {
@@ -218,6 +235,9 @@ func checkChain(c sim.ChainCase) error {
 			n, err := verifyStore(ch.Tip(), ch.Store, ft.Tip().Build())
 			elements += n
 			steps++
+			if err == nil {
+				err = follow(fw.Revert(ru, ch.Tip().Elements.NumLeaves), ft.Tip().Build(), fmt.Sprintf("revert to height %d", ch.Height()))
+			}
 			return err
 		},
 	}
@@ -228,6 +248,10 @@ func checkChain(c sim.ChainCase) error {
 		}
 		return stats.Failf("C05/replay", "%v", err)
 	}
+	if err := follow(fw.Flush(), ft.Tip().Build(), "end of history"); err != nil {
+		return err
+	}
+	rec.Extra("follower_twin_catchups", uint64(fw.Flushes))
 	nt := sawMerge || sawRevertReapply
 	tip := ch.Tip().Index.ID
 	labels := []string{"gen:signed-chain"}
@@ -302,6 +326,19 @@ func checkSyn(c SynCase) error {
 	if _, err := verifyStore(ch.Tip(), ch.Store, ft.Tip().Build()); err != nil {
 		return err
 	}
+	fw := sim.NewFollowers(1 + len(c.Ops)%4)
+	follow := func(err error, b *ref.Built, what string) error {
+		if err == nil {
+			_, err = fw.Verify(b)
+		}
+		if err != nil {
+			return stats.Failf("C05/follower", "%s: %v", what, err)
+		}
+		return nil
+	}
+	if err := follow(fw.Apply(au, ch.Tip().Elements.NumLeaves, ch.Store), ft.Tip().Build(), "genesis"); err != nil {
+		return err
+	}
 	nt := false
 	proofs := 0
 	serial := uint64(1000)
@@ -310,7 +347,8 @@ func checkSyn(c SynCase) error {
 			if ch.Height() == 0 {
 				continue
 			}
-			if _, err := ch.Revert(); err != nil {
+			ru, err := ch.Revert()
+			if err != nil {
 				return stats.Failf("C05/syn", "op %d revert: %v", i, err)
 			}
 			ft.Revert()
@@ -318,6 +356,9 @@ func checkSyn(c SynCase) error {
 			proofs += k
 			if err != nil {
 				return fmt.Errorf("op %d (revert): %w", i, err)
+			}
+			if err := follow(fw.Revert(ru, ch.Tip().Elements.NumLeaves), ft.Tip().Build(), fmt.Sprintf("op %d (revert)", i)); err != nil {
+				return err
 			}
 			continue
 		}
@@ -366,9 +407,15 @@ func checkSyn(c SynCase) error {
 		if err := treeNodes(au, oldB, newB); err != nil {
 			return stats.Failf("C05/tree-nodes", "op %d (apply spend=%b grow=%d on %d leaves): %v", i, op.Spend, grow, parent.Elements.NumLeaves, err)
 		}
+		if err := follow(fw.Apply(au, ch.Tip().Elements.NumLeaves, ch.Store), newB, fmt.Sprintf("op %d (apply spend=%b grow=%d on %d leaves)", i, op.Spend, grow, parent.Elements.NumLeaves)); err != nil {
+			return err
+		}
 		if o, nn := parent.Elements.NumLeaves, ch.Tip().Elements.NumLeaves; spent > 0 && (o^nn) > o {
 			nt = true
 		}
+	}
+	if err := follow(fw.Flush(), ft.Tip().Build(), "end of history"); err != nil {
+		return err
 	}
 	rec.Extra("synthetic_element_proofs_checked", uint64(proofs))
 	fp := stats.FP(c.GenesisOutputs, fmt.Sprint(c.Ops))
